@@ -30,7 +30,7 @@ func init() {
 	p := &mon.Property{
 		ID: "C11",
 		Rule: "Three generators, every transaction built through the public API. " +
-			"partition: 0..4 inputs whose spent script is P2PKH, nil, empty, P2PK, a data script, a one-byte mutation of P2PKH, 13 empty pushes or random bytes, unlocking script empty / nil / 1..120 arbitrary bytes; " +
+			"partition: 0..4 inputs whose spent script is P2PKH, nil, empty, P2PK, a data script, a one-byte mutation of P2PKH, 13 empty pushes, an inscription envelope followed by a non-OP_RETURN trailer, or random bytes, unlocking script empty / nil / 1..120 arbitrary bytes; " +
 			"0..6 outputs drawn from P2PKH, bare OP_RETURN, bare OP_FALSE OP_RETURN, OP_RETURN / OP_FALSE OP_RETURN with payloads of {0,1,75,76,255,256,65535,65536,100000} bytes, the near-data scripts {00, 00 00 6a, 51 6a, 6b, 6a alone}, empty and random scripts. " +
 			"relations: P2PKH-funded transactions, the complete grid amount relation {in<out, paid 0, fee-1, fee, fee+1, ample} x basis {actual size, estimated size} x 24 standard quotes x 24 data quotes (s in {0,1,5,50,500,10^4}, b in {1,3,100,1000}, chosen independently), amounts computed from the reference model. " +
 			"sign: 200 (quick) / 20,000 (thorough) PRNG private keys, each funding several transactions with 1..6 inputs of which a PRNG subset is already signed; the judge records the estimate, lets the library sign the remaining inputs (FillAllInputs when none was signed, FillInput otherwise) and measures again. " +
@@ -216,7 +216,31 @@ func c11SpentScript(r *prng.R) (script []byte, isNil bool) {
 		}
 		return s, false
 	case k < 15:
-		return thirteenEmptyPushes(), false
+		if r.Bool() {
+			return thirteenEmptyPushes(), false
+		}
+		// a complete P2PKH-inscription envelope followed by something that is not
+		// an OP_RETURN tail: one opcode, or several parts (a second signature
+		// check). Not an inscription, hence not a supported spent script.
+		s := gen.P2PKH(r.Bytes(20))
+		s = append(s, 0x00, 0x63, 0x03, 'o', 'r', 'd', 0x51)
+		s = append(s, gen.Push([]byte("text/plain"))...)
+		s = append(s, 0x00)
+		s = append(s, gen.Push(r.Bytes(1+r.Intn(30)))...)
+		s = append(s, 0x68)
+		switch r.Intn(4) {
+		case 0:
+			s = append(s, 0x51)
+		case 1:
+			s = append(append(append(s, 0x69), gen.Push(append([]byte{0x02}, r.Bytes(32)...))...), 0xac)
+		case 2:
+			s = append(s, 0x75, 0x51, 0x6a)
+		default:
+			d := r.Bytes(4)
+			d[0] = 0x11 // not 0x6a: the library's part decoder cannot tell a push whose data begins with 0x6a from OP_RETURN (DESIGN 9.3, narrowing 17)
+			s = append(append(s, gen.Push(d)...), 0x75, 0x6a, 0x01, 0x31)
+		}
+		return s, false
 	}
 	return r.Bytes(1 + r.Intn(60)), false
 }
